@@ -232,11 +232,15 @@ proof fn lemma_erow_phys<T: Default>(cs: Seq<T>, co: Seq<usize>, rp: Seq<usize>,
     requires in_phys(rp, i, l), 0 <= c0,
     ensures erow(cs, co, rp, c0, c1, l) =~= prow_e(cs, co, i, c0, c1),
 {
-    assert forall|j: int| 0 <= j < c1 + 1 - c0 implies erow(cs, co, rp, c0, c1, l)[j] == prow_e(cs, co, i, c0, c1)[j] by {
+    let a = erow(cs, co, rp, c0, c1, l);
+    let b = prow_e(cs, co, i, c0, c1);
+    assert(a.len() == b.len());
+    assert forall|j: int| 0 <= j < a.len() implies a[j] == b[j] by {
         lemma_lg_phys(cs, co, rp, i, l, c0 + j);
+        assert(a[j] == lg(cs, co, rp, l, c0 + j));
+        assert(b[j] == (if c0 + j < rlen(co, i) { cs[co[i] + c0 + j] } else { dflt::<T>() }));
     }
-    assert(erow(cs, co, rp, c0, c1, l).len() == prow_e(cs, co, i, c0, c1).len());
-    assert(erow(cs, co, rp, c0, c1, l) =~= prow_e(cs, co, i, c0, c1));
+    assert(a =~= b);
 }
 proof fn lemma_ecells<T: Default>(cs: Seq<T>, co: Seq<usize>, rp: Seq<usize>, c0: int, c1: int, l0: int, l1: int)
     requires l0 <= l1, c0 <= c1,
@@ -304,6 +308,99 @@ pub open spec fn bbox_inv<T: Default>(cs: Seq<T>, co: Seq<usize>, rp: Seq<usize>
 pub open spec fn zip_ok(co: Seq<usize>, rp: Seq<usize>, t: int, total: int, rem: Seq<(&[usize], &usize)>) -> bool {
     rem.len() == total - t
     && forall|j: int| 0 <= j < rem.len() ==> (#[trigger] rem[j]).0@ == co.subrange(t + j, t + j + 2) && *rem[j].1 == rp[t + j]
+}
+
+
+/// the closing argument of get_range: from what the two loops established to the property-level facts
+proof fn lemma_get_range_post<T: Default>(cs: Seq<T>, co: Seq<usize>, rp: Seq<usize>, m: int, x0: int, c0: int, c1: int, fe: int, rmax: int,
+    gm_c: int, gx_c: int, gmin: int, gmax: int, good: bool, bw: int, data: Seq<T>, lo0: int, hi0: int)
+    requires
+        lo0 == m + fe, hi0 == rmax + fe,
+        wf_shape(cs, co, rp), hyp(cs, co, rp), 0 <= m, 0 <= x0, 0 <= c0, 0 <= c1, 0 <= fe,
+        bbox_inv(cs, co, rp, co.len() - 1, Some(m as usize), x0 as usize, c0 as usize, c1 as usize, fe as usize, gm_c, gx_c, gmin, gmax),
+        m <= usize::MAX, x0 <= usize::MAX, c0 <= usize::MAX, c1 <= usize::MAX, fe <= usize::MAX,
+        rmax == x0 + (rep_sum(rp, x0 + 1) - rep_sum(rp, m)) - (x0 + 1 - m),
+        data.len() > 0,
+        good ==> data == ecells(cs, co, rp, c0, c1, rep_sum(rp, m), rep_sum(rp, x0 + 1)),
+        !good ==> c0 > 0 && m < bw < x0 && blank_row(cs, co, bw),
+    ensures
+        lo0 == rep_sum(rp, m), hi0 == rep_sum(rp, x0 + 1) - 1,
+        0 <= lo0 <= hi0 <= u32::MAX, c0 <= c1 <= u32::MAX,
+        forall|l: int, c: int| nd(cs, co, rp, l, c) ==> lo0 <= l <= hi0 && c0 <= c <= c1,
+        exists|c: int| nd(cs, co, rp, lo0, c),
+        exists|c: int| nd(cs, co, rp, hi0, c),
+        exists|l: int| nd(cs, co, rp, l, c0),
+        exists|l: int| nd(cs, co, rp, l, c1),
+        good ==> data.len() == (hi0 - lo0 + 1) * (c1 - c0 + 1)
+            && forall|l: int, c: int| lo0 <= l <= hi0 && c0 <= c <= c1 ==>
+                data[(l - lo0) * (c1 - c0 + 1) + (c - c0)] == lg(cs, co, rp, l, c),
+        (c0 == 0 || no_blank_row_in(cs, co, rp, lo0, hi0)) ==> good,
+{
+    let n = co.len() - 1;
+    let l0 = rep_sum(rp, m);
+    let l1 = rep_sum(rp, x0 + 1);
+    lemma_rep_sum_ge(rp, 0, m);
+    lemma_rep_sum_ge(rp, m, x0 + 1);
+    lemma_rep_sum_mono(rp, x0 + 1, n);
+    lemma_rep_sum_mono(rp, 0, m);
+    assert(rep_sum(rp, 0) == 0);
+    assert(fe == l0 - m);
+    assert(l0 < l1 <= u32::MAX);
+    assert(c1 < rlen(co, gmax));
+    assert(co[gmax + 1] <= co[n]);
+    // the four sides touch a non-default logical cell
+    assert(rep_sum(rp, m + 1) == l0 + rp[m]); assert(rp[m] >= 1);
+    assert(in_phys(rp, m, l0));
+    lemma_lg_phys(cs, co, rp, m, l0, gm_c);
+    assert(nd(cs, co, rp, l0, gm_c));
+    assert(rep_sum(rp, x0 + 1) == rep_sum(rp, x0) + rp[x0]); assert(rp[x0] >= 1);
+    assert(in_phys(rp, x0, l1 - 1));
+    lemma_lg_phys(cs, co, rp, x0, l1 - 1, gx_c);
+    assert(nd(cs, co, rp, l1 - 1, gx_c));
+    assert(rep_sum(rp, gmin + 1) == rep_sum(rp, gmin) + rp[gmin]); assert(rp[gmin] >= 1);
+    assert(in_phys(rp, gmin, rep_sum(rp, gmin)));
+    lemma_lg_phys(cs, co, rp, gmin, rep_sum(rp, gmin), c0);
+    assert(nd(cs, co, rp, rep_sum(rp, gmin), c0));
+    assert(rep_sum(rp, gmax + 1) == rep_sum(rp, gmax) + rp[gmax]); assert(rp[gmax] >= 1);
+    assert(in_phys(rp, gmax, rep_sum(rp, gmax)));
+    lemma_lg_phys(cs, co, rp, gmax, rep_sum(rp, gmax), c1);
+    assert(nd(cs, co, rp, rep_sum(rp, gmax), c1));
+    // every non-default logical cell lies inside
+    assert forall|l: int, c: int| nd(cs, co, rp, l, c) implies l0 <= l <= l1 - 1 && c0 <= c <= c1 by {
+        lemma_nd_phys(cs, co, rp, l, c);
+        let ip = phys_of(rp, l);
+        assert(m <= ip <= x0) by {
+            if ip < m { assert(blank_row(cs, co, ip)); }
+            if ip > x0 { assert(blank_row(cs, co, ip)); }
+        }
+        lemma_rep_sum_mono(rp, m, ip);
+        lemma_rep_sum_mono(rp, ip + 1, x0 + 1);
+    }
+    if !good {
+        // the known defect was hit: then the data does not start in column 0 and a blank logical row lies inside the box
+        let lb = rep_sum(rp, bw);
+        lemma_rep_sum_mono(rp, m, bw);
+        lemma_rep_sum_mono(rp, bw + 1, x0 + 1);
+        assert(rep_sum(rp, bw + 1) == lb + rp[bw]); assert(rp[bw] >= 1);
+        assert(in_phys(rp, bw, lb));
+        assert(!row_has_nd(cs, co, rp, lb)) by {
+            if row_has_nd(cs, co, rp, lb) {
+                let c = choose|c: int| nd(cs, co, rp, lb, c);
+                lemma_lg_phys(cs, co, rp, bw, lb, c);
+                assert(nd_at(cs, co, bw, c));
+            }
+        }
+        assert(!no_blank_row_in(cs, co, rp, l0, l1 - 1));
+    } else {
+        lemma_ecells(cs, co, rp, c0, c1, l0, l1);
+        let w = c1 + 1 - c0;
+        assert(hi0 - lo0 + 1 == l1 - l0);
+        assert forall|l: int, c: int| l0 <= l <= l1 - 1 && c0 <= c <= c1 implies
+            data[(l - l0) * (c1 - c0 + 1) + (c - c0)] == lg(cs, co, rp, l, c) by {
+            assert((l - l0) * (c1 - c0 + 1) + (c - c0) == (l - l0) * w + (c - c0));
+            assert(lg(cs, co, rp, l, c0 + (c - c0)) == lg(cs, co, rp, l, c));
+        }
+    }
 }
 
 //@@ fn src/ods.rs is_empty_row props=C04 ret=r
@@ -400,6 +497,7 @@ verif_windows_enumerate(cols, 2)
                 assert(forall|c: int| 0 <= c < rlen(co, k) ==> row@[c] == cs[co[k] + c]);
             }
             let ghost mut found = false;
+            let ghost mut found2 = false;
 //@@ after /if let Some\(p\) = row\.iter\(\)\.position\([^{]*\{/
                 proof {
                     // p is the first non-default cell of physical row k
@@ -414,6 +512,7 @@ verif_windows_enumerate(cols, 2)
                     gx_c = p as int;
                     if p <= col_min { gmin = k; }
                 }
+                let ghost pfirst: int = p as int;
 //@@ after /if let Some\(p\) = row\.iter\(\)\.rposition\([^{]*\{/
                     proof {
                         assert(row@[p as int] != dflt::<T>());
@@ -423,7 +522,12 @@ verif_windows_enumerate(cols, 2)
                             assert(row@[c] == cs[co[k] + c]);
                         }
                         if p >= col_max { gmax = k; }
+                        found2 = true;
                     }
+//@@ after /if p > col_max \{[^}]*\}\s*\}/
+                proof {
+                    if !found2 { assert(row@[pfirst] != dflt::<T>()); assert(false); }
+                }
 //@@ after /if p > col_max \{[^}]*\}\s*\}\s*\}/
             proof {
                 if !found {
@@ -433,6 +537,21 @@ verif_windows_enumerate(cols, 2)
                     assert(blank_row(cs, co, k));
                 }
                 k = k + 1;
+                match row_min {
+                    None => { assert(!found); }
+                    Some(mm) => {
+                        assert(mm <= row_max < k);
+                        assert(nd_at(cs, co, mm as int, gm_c));
+                        assert(nd_at(cs, co, row_max as int, gx_c));
+                        assert(forall|i: int| 0 <= i < mm ==> blank_row(cs, co, i));
+                        assert(forall|i: int| row_max < i < k ==> blank_row(cs, co, i));
+                        assert(col_min <= col_max);
+                        assert(forall|i: int, c: int| 0 <= i < k && nd_at(cs, co, i, c) ==> col_min <= c <= col_max);
+                        assert(mm <= gmin <= row_max && nd_at(cs, co, gmin, col_min as int));
+                        assert(mm <= gmax <= row_max && nd_at(cs, co, gmax, col_max as int));
+                        assert(first_empty_rows_repeated == (if rep_sum(rp, mm as int) >= mm { rep_sum(rp, mm as int) - mm } else { 0 }));
+                    }
+                }
             }
 //@@ before /let row_min = match row_min/
     proof {
@@ -624,74 +743,8 @@ verif_windows_enumerate(cols, 2)
 //@@ before /let row_min = row_min \+ first_empty_rows_repeated;/
     proof {
         if hyp(cs, co, rp) {
-            let c0 = col_min as int;
-            let c1 = col_max as int;
-            let l1 = rep_sum(rp, x0 + 1);
-            lemma_rep_sum_ge(rp, 0, m);
-            lemma_rep_sum_ge(rp, m, x0 + 1);
-            lemma_rep_sum_mono(rp, x0 + 1, n);
-            lemma_rep_sum_mono(rp, 0, m);
-            assert(rep_sum(rp, 0) == 0);
-            assert(first_empty_rows_repeated == l0 - m);
-            assert(row_min + first_empty_rows_repeated == l0);
-            assert(row_max + first_empty_rows_repeated == l1 - 1);
-            assert(l0 < l1 <= u32::MAX);
-            assert(col_max < rlen(co, gmax));
-            assert(co[gmax + 1] <= co[n]);
-            assert(col_max <= u32::MAX);
-            // the four sides touch a non-default logical cell
-            assert(rep_sum(rp, m + 1) == l0 + rp[m as int]); assert(rp[m as int] >= 1);
-            assert(in_phys(rp, m, l0));
-            lemma_lg_phys(cs, co, rp, m, l0, gm_c);
-            assert(nd(cs, co, rp, l0, gm_c));
-            assert(rep_sum(rp, x0 + 1) == rep_sum(rp, x0 as int) + rp[x0 as int]); assert(rp[x0 as int] >= 1);
-            assert(in_phys(rp, x0 as int, l1 - 1));
-            lemma_lg_phys(cs, co, rp, x0 as int, l1 - 1, gx_c);
-            assert(nd(cs, co, rp, l1 - 1, gx_c));
-            assert(rep_sum(rp, gmin + 1) == rep_sum(rp, gmin) + rp[gmin]); assert(rp[gmin] >= 1);
-            assert(in_phys(rp, gmin, rep_sum(rp, gmin)));
-            lemma_lg_phys(cs, co, rp, gmin, rep_sum(rp, gmin), c0);
-            assert(nd(cs, co, rp, rep_sum(rp, gmin), c0));
-            assert(rep_sum(rp, gmax + 1) == rep_sum(rp, gmax) + rp[gmax]); assert(rp[gmax] >= 1);
-            assert(in_phys(rp, gmax, rep_sum(rp, gmax)));
-            lemma_lg_phys(cs, co, rp, gmax, rep_sum(rp, gmax), c1);
-            assert(nd(cs, co, rp, rep_sum(rp, gmax), c1));
-            // every non-default logical cell lies inside
-            assert forall|l: int, c: int| nd(cs, co, rp, l, c) implies l0 <= l <= l1 - 1 && c0 <= c <= c1 by {
-                lemma_nd_phys(cs, co, rp, l, c);
-                let ip = phys_of(rp, l);
-                assert(m <= ip <= x0) by {
-                    if ip < m { assert(blank_row(cs, co, ip)); }
-                    if ip > x0 { assert(blank_row(cs, co, ip)); }
-                }
-                lemma_rep_sum_mono(rp, m, ip);
-                lemma_rep_sum_mono(rp, ip + 1, x0 + 1);
-            }
-            // content
-            if !good {
-                // the known defect was hit: then the data does not start in column 0 and a blank logical row lies inside the box
-                let lb = rep_sum(rp, bw);
-                lemma_rep_sum_mono(rp, m, bw);
-                lemma_rep_sum_mono(rp, bw + 1, x0 + 1);
-                assert(rep_sum(rp, bw + 1) == lb + rp[bw]); assert(rp[bw] >= 1);
-                assert(in_phys(rp, bw, lb));
-                assert(!row_has_nd(cs, co, rp, lb)) by {
-                    if row_has_nd(cs, co, rp, lb) {
-                        let c = choose|c: int| nd(cs, co, rp, lb, c);
-                        lemma_lg_phys(cs, co, rp, bw, lb, c);
-                        assert(nd_at(cs, co, bw, c));
-                    }
-                }
-                assert(!no_blank_row_in(cs, co, rp, l0, l1 - 1));
-            } else {
-                lemma_ecells(cs, co, rp, c0, c1, l0, l1);
-                let w = c1 + 1 - c0;
-                assert(cells@ == ecells(cs, co, rp, c0, c1, l0, l1));
-                assert forall|l: int, c: int| l0 <= l <= l1 - 1 && c0 <= c <= c1 implies
-                    ecells(cs, co, rp, c0, c1, l0, l1)[(l - l0) * (c1 - c0 + 1) + (c - c0)] == lg(cs, co, rp, l, c) by {
-                    assert((l - l0) * (c1 - c0 + 1) + (c - c0) == (l - l0) * w + (c - c0));
-                }
-            }
+            lemma_get_range_post(cs, co, rp, m, x0 as int, col_min as int, col_max as int, first_empty_rows_repeated as int, row_max as int,
+                gm_c, gx_c, gmin, gmax, good, bw, cells@, row_min + first_empty_rows_repeated, row_max + first_empty_rows_repeated);
         }
     }
 //@@ replace /rows_repeats\.iter\(\)\.take\(i\)\.sum::<usize>\(\)/ Verus cannot attach a specification to the provided trait method Iterator::sum; the expression is moved verbatim into the trusted wrapper verif_sum_take
